@@ -83,6 +83,9 @@ impl Prop for C17 {
     fn id(&self) -> &'static str {
         "C17"
     }
+    fn fuzz_target(&self) -> Option<&'static str> {
+        Some("tape")
+    }
     fn rule(&self) -> String {
         "generated transition systems; roots = every state, output, bad, constraint, init, next plus random sub-expressions; for cone_of_influence / _init / _comb: (a) result contains only inputs and states of the system, no duplicates; (b) tight: result is a subset of the harness' own syntactic dependency closure (children, plus init links, plus next links per variant); (c) sufficient by metamorphic perturbation in the reference simulator: 16 pairs of executions that agree on the cone (cone inputs at every step, free initial values and free next values of cone states) and differ arbitrarily elsewhere give the root the same value - at steps 0..4 for the full cone, at step 0 for the init cone, as a function of the current symbols for the combinational cone. Non-trivial: root whose cone is a strict non-empty subset of inputs+states and where an excluded symbol occurs elsewhere in the system; distinct by hash of (system, root, variant).".into()
     }
